@@ -1,3 +1,4 @@
 //! Reference models and generators shared by the property checks (written from the RFCs).
 pub mod glob;
 pub mod refs;
+pub mod json;
